@@ -9,14 +9,15 @@ import PdfModel.Lemmas.ParserBasics
   resolver's lengths are `i32`s (`usize` arithmetic of `read_n` / `offset_pos` cannot overflow).
 -/
 
-namespace PdfLex
+namespace PdfShift
+open PdfLex
 
 variable {R : Type}
 
 def shV {α : Type} (k : Nat) (r : α × Nat) : α × Nat := (r.1, k + r.2)
 
 /-- the environment of the un-prefixed run: the lexer's file offset absorbs the prefix -/
-def Env.shiftOffset (env : Env R) (k : Nat) : Env R := { env with fileOffset := env.fileOffset + k }
+def _root_.PdfLex.Env.shiftOffset (env : Env R) (k : Nat) : Env R := { env with fileOffset := env.fileOffset + k }
 
 def LenBounded (env : Env R) : Prop := ∀ i g n, env.resolveLen i g = .ok n → n ≤ 2147483647
 
@@ -1041,4 +1042,4 @@ theorem parseCtx_shift (env : Env R) (p b : Buf) (hsz : (p ++ b).size ≤ 214748
       = omap (shV p.size) (parseCtx (env.shiftOffset p.size) b fuel pos ctx flags depth) :=
   (shifts env p b hsz hlen fuel).ctx pos ctx flags depth
 
-end PdfLex
+end PdfShift
